@@ -198,3 +198,15 @@ chk("C20",
     "infeasible member.",
     "pandapower's power flow / control loop and controller ordering are library code; multi-energy time series reuse C13's model.",
     "Lean 4 proof over translated controller arithmetic; bitwise self-check; coupled-run search", "8/C20")
+chk("C15",
+    "Lean theorems over the model of the pandapipes-owned part of the codec: every fluid property class (interpolated, constant, "
+    "linear, polynomial, Sutherland) round-trips through to_dict / from_dict with all the data it consists of; the whole net "
+    "document (name, sector, user options, component list, fluid with all properties, all tables) round-trips for every net, given "
+    "the round-trip law of the table codec (pandas / pandapower, a parameter); internal (underscore) entries are never written. "
+    "Tie: stored fields per property class vs the real to_dict(), real from_dict(to_dict()) behaviour, new classes flagged. Search: "
+    "generated nets with every component, results, custom columns / fluids of every class / pump types / user options / "
+    "controllers / NaN-None cells through to_json (string, file, encrypted) and to_pickle: tables with dtypes and indices, fluid "
+    "values, std types, component list, sector, name, user options, re-run.",
+    "pandas / pandapower JSON machinery is library code (15 decimal places on the JSON paths; exact on pickle). Known finding: inf "
+    "in mass_storage.max_m_stored_kg becomes NaN on the JSON paths. Multi-energy nets are exercised under C20.",
+    "Lean 4 proof of codec round-trip over a model of the pandapipes hooks; field-level correspondence; round-trip search", "8/C15")
